@@ -53,7 +53,7 @@ add("C19", "enum", "bounded-exhaustive enumeration of configurations, round-trip
     "Valid configurations only (canonical semver versions, clean paths), as the property quantifies.", "DESIGN.md section 5 C19")
 
 add("C16", "enum", "bounded-exhaustive enumeration of value pairs through the real Diff (and a route-limit-4 build), edit-script replay oracle",
-    "All ordered pairs of int sequences over {0,1,2} of length <=4 (5) as lists/tuples/mixed, binary lists to length 6 (8), strings and bytes over {a,b,c} to length 4 (5), nested sequences, all pairs of dicts over 3 keys x 5 (8) values, a cross-type pool incl. numerically equal int/float pairs, deep chains, and real-size pairs that cross the 2,000,000-point route limit; second pass on a build with the route limit scaled to 4. Oracle: nil diff <=> starlark.Equal; Old()/New() are the arguments in order; replaying the edits rebuilds old and new (recursively through nested diffs); mapping diffs have an edit exactly for added/removed/changed keys.",
+    "All ordered pairs of int sequences over {0,1,2} of length <=4 (5) as lists/tuples/mixed, binary lists to length 6 (8), strings and bytes over {a,b,c} to length 4 (5), nested sequences, all pairs of dicts over 3 keys x 6 (9) values incl. None, a cross-type pool incl. numerically equal int/float pairs, deep chains, and real-size pairs that cross the 2,000,000-point route limit; second pass on a build with the route limit scaled to 4. Oracle: nil diff <=> starlark.Equal; Old()/New() are the arguments in order; replaying the edits rebuilds old and new (recursively through nested diffs); mapping diffs have an edit exactly for added/removed/changed keys.",
     "Trusts the replay oracle and starlark.Equal. The scaled pass differs from /repo only in defaultRouteSize (vtool -const). Third pass (c08 harness, -as C16): after every single edit of every generated program the rebuild reason must name exactly the environment parts that differ (the property's last clause), including programs with self-referential data.", "DESIGN.md section 5 C16")
 
 HIST_NOTE = "Trusts the reference model (what each target's latest successful execution consumed) and the project shape's input map; every build is a fresh dawn.Load + Run through the public API on a real directory (tmpfs); intra-build thread schedule is the Go runtime's (schedules are C04/C05/C09's); execution identifiers in records are alpha-renamed for state de-duplication because dawn only compares them for equality."
